@@ -264,11 +264,26 @@ func c19R2(c *Ctx) {
 		c.Require("C19.R2", "max watermark ≤ capacity at return (or both zero in centralized IPAM)", fn, r, fmt.Sprintf("%[1]s.MaxPoolSize <= %[1]s.Capacity || %[1]s.MaxPoolSize == 0", v), nil)
 	}
 	c.Floor("C19.R2", "returns of getPoolConfig", 1, n)
+	// the capacity and interface-count variables are the ones stored into the record's Capacity and
+	// MaxENI fields (whatever they are called)
+	storedTo := func(field string) types.Object {
+		var o types.Object
+		ast.Inspect(fn.Decl.Body, func(nd ast.Node) bool {
+			if as, ok := nd.(*ast.AssignStmt); ok && len(as.Lhs) == 1 && len(as.Rhs) == 1 {
+				if sel, ok := ast.Unparen(as.Lhs[0]).(*ast.SelectorExpr); ok && sel.Sel.Name == field && typeIs(info.TypeOf(sel.X), modPath+"/types/daemon", "PoolConfig") {
+					o = identObj(info, as.Rhs[0])
+				}
+			}
+			return true
+		})
+		return o
+	}
+	capObj, maxObj := storedTo("Capacity"), storedTo("MaxENI")
 	// capacity = maxENI * ipPerENI
 	okCap := false
 	ast.Inspect(fn.Decl.Body, func(nd ast.Node) bool {
-		if as, ok := nd.(*ast.AssignStmt); ok && len(as.Lhs) == 1 && exprString(as.Lhs[0]) == "capacity" {
-			if be, ok := ast.Unparen(as.Rhs[0]).(*ast.BinaryExpr); ok && be.Op == token.MUL {
+		if as, ok := nd.(*ast.AssignStmt); ok && len(as.Lhs) == 1 && capObj != nil && identObj(info, as.Lhs[0]) == capObj {
+			if be, ok := ast.Unparen(as.Rhs[0]).(*ast.BinaryExpr); ok && be.Op == token.MUL && maxObj != nil && (identObj(info, be.X) == maxObj || identObj(info, be.Y) == maxObj) {
 				okCap = true
 			}
 		}
@@ -278,13 +293,33 @@ func c19R2(c *Ctx) {
 	// configured max ENI honoured
 	okMax := false
 	ast.Inspect(fn.Decl.Body, func(nd ast.Node) bool {
-		if is, ok := nd.(*ast.IfStmt); ok && len(is.Body.List) == 1 {
-			s := strings.ReplaceAll(exprString(is.Cond), " ", "")
-			if strings.Contains(s, ".MaxENI>0") && strings.Contains(s, ".MaxENI<maxENI") {
-				if as, ok := is.Body.List[0].(*ast.AssignStmt); ok && exprString(as.Lhs[0]) == "maxENI" && strings.HasSuffix(exprString(as.Rhs[0]), ".MaxENI") {
-					okMax = true
-				}
+		is, ok := nd.(*ast.IfStmt)
+		if !ok || len(is.Body.List) != 1 || maxObj == nil {
+			return true
+		}
+		and, ok := ast.Unparen(is.Cond).(*ast.BinaryExpr)
+		if !ok || and.Op != token.LAND {
+			return true
+		}
+		isCfgMax := func(x ast.Expr) bool {
+			sel, ok := ast.Unparen(x).(*ast.SelectorExpr)
+			return ok && sel.Sel.Name == "MaxENI" && typeIs(info.TypeOf(sel.X), modPath+"/types/daemon", "Config")
+		}
+		pos, below := false, false
+		for _, side := range []ast.Expr{and.X, and.Y} {
+			be, ok := ast.Unparen(side).(*ast.BinaryExpr)
+			if !ok {
+				continue
 			}
+			if v, isC := constInt(info, be.Y); be.Op == token.GTR && isCfgMax(be.X) && isC && v == 0 {
+				pos = true
+			}
+			if (be.Op == token.LSS && isCfgMax(be.X) && identObj(info, be.Y) == maxObj) || (be.Op == token.GTR && isCfgMax(be.Y) && identObj(info, be.X) == maxObj) {
+				below = true
+			}
+		}
+		if as, ok := is.Body.List[0].(*ast.AssignStmt); ok && pos && below && len(as.Lhs) == 1 && identObj(info, as.Lhs[0]) == maxObj && isCfgMax(as.Rhs[0]) {
+			okMax = true
 		}
 		return true
 	})
